@@ -120,8 +120,13 @@ def run(ctx):
 
     dump = ctx.scratch / "enc.dump"
 
+    # development knob (mutation self-tests): C08_KINDS=xls,zip restricts the REPLAY to those container kinds;
+    # the theorem / sensitivity runs and the fixture traces are never restricted
+    kinds = [k for k in os.environ.get("C08_KINDS", "").split(",") if k in ALL_KINDS] or ALL_KINDS
+
     def gen():
-        return run_tlc("EncryptionGen", _cfg("GenSpec", [], bounds), scratch=ctx.scratch, workers=2, timeout=900, dump=dump)
+        return run_tlc("EncryptionGen", _cfg("GenSpec", [], bounds, kinds=kinds), scratch=ctx.scratch, workers=2,
+                       timeout=900, dump=dump)
     with ThreadPoolExecutor(6) as ex:
         f_th = ex.submit(theorem)
         f_gen = ex.submit(gen)
@@ -215,8 +220,8 @@ def run(ctx):
     ev.set(rule="abstract containers enumerated by TLC (EncryptionGen) for 9 container kinds, each built for real and "
                 "run through direct extractor / read_file / cli.main; + every repository fixture projected to its "
                 "abstract container; non-trivial = distinct (container, format) classified MUST or DONTCARE, or a fixture",
-           exhaustive=bool(ctx.thorough),
-           constants={**bounds, "containers": len(containers), "cases": len(cases), "entries": ENTRIES,
+           exhaustive=bool(ctx.thorough) and kinds == ALL_KINDS,
+           constants={**bounds, "kinds": kinds, "containers": len(containers), "cases": len(cases), "entries": ENTRIES,
                       "fixture_traces": len(fx)})
     ev.assume("format-document readings transcribed by hand into Encryption.tla (Class*)",
               "PDF: pypdf's writer produces the encrypted PDFs (AES via the library's own fallback, validated by C20); "
